@@ -30,6 +30,7 @@ func TestC03(t *testing.T) {
 		"evaluations counts opened images; workloads and instants are reported separately")
 	defer finishProperty(st)
 	t.Run("mmap-probe", func(t *testing.T) { c03MMapProbe(t, st) })
+	t.Run("merge-race-probe", func(t *testing.T) { c03MergeRaceProbe(t, st) })
 	t.Run("random", func(t *testing.T) {
 		checkCases(t, st, func(t *rapid.T) { c03Run(t, st, "C03", c03Profile, nil) })
 	})
